@@ -434,6 +434,58 @@ Fixpoint insert_kv {A} (e : bytes * A) (l : list (bytes * A)) : list (bytes * A)
   end.
 Definition sort_kv {A} (l : list (bytes * A)) : list (bytes * A) := fold_right insert_kv [] l.
 
+(* ---- the package paths ident.Frag hands to AddType, in call order, read off the argument alone ---- *)
+Section IdRegs.
+  Variable self : bytes.
+  Variable parse : bytes -> option TL.tref.
+
+  (* processName's Walk: pre-order; own package and path-less nodes are not registered *)
+  Fixpoint tref_regs (t : TL.tref) : list bytes :=
+    match t with
+    | TL.TRef pkg _ args =>
+        (if is_nil pkg then [] else if bytes_eqb pkg self then [] else [pkg]) ++ trefs_regs args
+    end
+  with trefs_regs (l : TL.trefs) : list bytes :=
+    match l with
+    | TL.TRNil => []
+    | TL.TRCons t r => tref_regs t ++ trefs_regs r
+    end.
+
+  (* rawNamer.Name: the type arguments first, then the type's own package *)
+  Definition name_regs (pkg name : bytes) : list bytes :=
+    match parse name with
+    | None => []
+    | Some (TL.TRef _ _ TL.TRNil) => []
+    | Some t => tref_regs t
+    end ++ (if bytes_eqb pkg self then [] else [pkg]).
+
+  Fixpoint view_regs (v : TL.tyview) : list bytes :=
+    match v with
+    | TL.VNamed p n => name_regs p n
+    | TL.VPtr x | TL.VChan x | TL.VArray _ x | TL.VSlice x => view_regs x
+    | TL.VMap k x => view_regs k ++ view_regs x
+    | TL.VStruct fs => fields_regs fs
+    | TL.VIface _ | TL.VOther _ => []
+    end
+  with fields_regs (fs : TL.vfields) : list bytes :=
+    match fs with
+    | TL.VFNil => []
+    | TL.VFCons _ _ t _ rest => view_regs t ++ fields_regs rest
+    end.
+
+  Definition idarg_regs (x : TL.idarg) : list bytes :=
+    match x with
+    | TL.IdAlias s | TL.IdStr s =>
+        match TL.parse_ref s with
+        | None => []
+        | Some (p, n) => name_regs p n
+        end
+    | TL.IdName p n _ => name_regs p n
+    | TL.IdR v | TL.IdT v => view_regs v
+    | TL.IdOther => []
+    end.
+End IdRegs.
+
 Section Leaves.
   Context {F : Type}.
   Variable fzero : F -> bool.
@@ -582,6 +634,23 @@ Section Leaves.
 
   Definition leaf_value_regs (t : VL.gotype) (v : goval) : list bytes := filter is_foreign (value_regs false t v).
 
+  (* the packages a leaf hands to AddType when it is rendered (ID / %T leaves: Section IdRegs below) *)
+  Definition leaf_regs (l : leaf) : list bytes :=
+    match l with
+    | LValue (Some (t, v)) => leaf_value_regs t v
+    | LID (Some x) => idarg_regs self parse_c15 x
+    | LExpose p n => idarg_regs self parse_c15 (TL.IdName p n [])
+    | _ => []
+    end.
+  Definition raw_v_regs (a : rawarg) : list bytes :=
+    match a with AVal t v => leaf_value_regs t v | _ => [] end.
+  Definition raw_t_regs (a : rawarg) : list bytes :=
+    match a with
+    | AVal VL.TString (VL.VStr s) => idarg_regs self parse_c15 (TL.IdStr s)
+    | AType x => idarg_regs self parse_c15 x
+    | _ => []
+    end.
+
   (* the term language and its rendering: everything above plugged into the generic part *)
   Definition csnip := rsnip leaf rawarg.
   Definition crender : csnip -> rs renv := rrender renv leaf rawarg leaf_isnil leaf_frag raw_v raw_t.
@@ -589,54 +658,4 @@ Section Leaves.
   Definition cerase : renv -> csnip -> Sn.snip := erase renv leaf rawarg leaf_isnil leaf_frag raw_v raw_t.
 End Leaves.
 
-(* ---- the package paths ident.Frag hands to AddType, in call order, read off the argument alone ---- *)
-Section IdRegs.
-  Variable self : bytes.
-  Variable parse : bytes -> option TL.tref.
 
-  (* processName's Walk: pre-order; own package and path-less nodes are not registered *)
-  Fixpoint tref_regs (t : TL.tref) : list bytes :=
-    match t with
-    | TL.TRef pkg _ args =>
-        (if is_nil pkg then [] else if bytes_eqb pkg self then [] else [pkg]) ++ trefs_regs args
-    end
-  with trefs_regs (l : TL.trefs) : list bytes :=
-    match l with
-    | TL.TRNil => []
-    | TL.TRCons t r => tref_regs t ++ trefs_regs r
-    end.
-
-  (* rawNamer.Name: the type arguments first, then the type's own package *)
-  Definition name_regs (pkg name : bytes) : list bytes :=
-    match parse name with
-    | None => []
-    | Some (TL.TRef _ _ TL.TRNil) => []
-    | Some t => tref_regs t
-    end ++ (if bytes_eqb pkg self then [] else [pkg]).
-
-  Fixpoint view_regs (v : TL.tyview) : list bytes :=
-    match v with
-    | TL.VNamed p n => name_regs p n
-    | TL.VPtr x | TL.VChan x | TL.VArray _ x | TL.VSlice x => view_regs x
-    | TL.VMap k x => view_regs k ++ view_regs x
-    | TL.VStruct fs => fields_regs fs
-    | TL.VIface _ | TL.VOther _ => []
-    end
-  with fields_regs (fs : TL.vfields) : list bytes :=
-    match fs with
-    | TL.VFNil => []
-    | TL.VFCons _ _ t _ rest => view_regs t ++ fields_regs rest
-    end.
-
-  Definition idarg_regs (x : TL.idarg) : list bytes :=
-    match x with
-    | TL.IdAlias s | TL.IdStr s =>
-        match TL.parse_ref s with
-        | None => []
-        | Some (p, n) => name_regs p n
-        end
-    | TL.IdName p n _ => name_regs p n
-    | TL.IdR v | TL.IdT v => view_regs v
-    | TL.IdOther => []
-    end.
-End IdRegs.
